@@ -671,7 +671,8 @@ SCEN = {"dag": sc_dag}
 
 
 def run_item(cfg, tier):
-    from .refs_merge import merge_discharged
+    from .refs_merge import merge_discharged, prime_inspect_cache
+    prime_inspect_cache()
     return merge_discharged(symbolic_run(SCEN[cfg["kind"]], cfg, tier, max_paths=4))
 
 
@@ -684,9 +685,42 @@ def _norm_clause(c):
     return c
 
 
+def _replay_once(g, gi, phase, want, env):
+    V = Vals(env=env)
+    only = int(phase[1:]) if phase.startswith("S") else None
+    if only is None or only == 0:
+        ck, _ = run_graph(V, None, g, gi, only_set=0 if only == 0 else -1)
+    else:
+        # seed sets after the first ran after Network.reset(): replay the same protocol (all sets in order)
+        ck, _ = run_graph(V, None, g, gi)
+    hits = [f for f in ck.failed if f[0].split("|")[1] == phase and _norm_clause(f[0].split("|", 2)[2]) == want]
+    return hits, ck.failed
+
+
+class _ProbeEnv(dict):
+    """Deterministic generic assignment: every symbol gets a non-zero multiple of 1/8 in [-3, 3]."""
+
+    def __init__(self, seed):
+        super().__init__()
+        self.seed = seed
+
+    def __contains__(self, k):
+        return True
+
+    def __getitem__(self, k):
+        if not dict.__contains__(self, k):
+            import hashlib
+            h = int(hashlib.md5(("%s/%s" % (self.seed, k)).encode()).hexdigest()[:8], 16)
+            v = (h % 48 - 24) / 8.0
+            dict.__setitem__(self, k, v if v != 0 else 0.375)
+        return dict.__getitem__(self, k)
+
+
 def replay(cfg, label, env, case):
     """Re-run the graph named in the label on the real library with floats; the expected total derivative
-    comes from the hand-written forward-mode reference evaluated in floats."""
+    comes from the hand-written forward-mode reference evaluated in floats.  Solver witnesses of polynomial
+    disequalities can be numerically degenerate (difference ~1e-12); if the witness itself does not reproduce,
+    the same clause is evaluated at three generic rational points (DESIGN 3.7 step 6, `fallback-probe`)."""
     try:
         parts = label.split("|")
         gi = int(parts[0][1:])
@@ -694,19 +728,21 @@ def replay(cfg, label, env, case):
     except Exception:
         return dict(reproduced=None, detail="cannot parse label %r" % label)
     g = cfg["graphs"][gi - cfg["first"]]
-    V = Vals(env=env)
-    only = int(phase[1:]) if phase.startswith("S") else None
-    sets = seed_sets(g)
-    failed = []
-    if only is None or only == 0:
-        ck, _ = run_graph(V, None, g, gi, only_set=0 if only == 0 else -1)
-        failed = ck.failed
-    else:
-        # seed sets after the first ran after Network.reset(): replay the same protocol (all sets in order)
-        ck, _ = run_graph(V, None, g, gi)
-        failed = ck.failed
     want = _norm_clause(label.split("|", 2)[2])
-    hits = [f for f in failed if f[0].split("|")[1] == phase and _norm_clause(f[0].split("|", 2)[2]) == want]
-    det = dict(graph=dict(mods=g["mods"], nest=g["nest"], nsrc=g["nsrc"]), seeded=(sets[only] if only is not None else None),
-               failed=[(f[0], f[2]) for f in (hits or failed)[:4]])
-    return dict(reproduced=bool(hits), detail=det)
+    sets = seed_sets(g)
+    only = int(phase[1:]) if phase.startswith("S") else None
+    det = dict(graph=dict(mods=g["mods"], nest=g["nest"], nsrc=g["nsrc"]), seeded=(sets[only] if only is not None else None))
+    hits, failed = _replay_once(g, gi, phase, want, env)
+    if hits:
+        det.update(found_by="solver-model", failed=[(f[0], f[2]) for f in hits[:4]])
+        return dict(reproduced=True, detail=det)
+    if want.startswith("skipped"):
+        return dict(reproduced=False, detail=det)
+    for seed in (1, 2, 3):
+        penv = _ProbeEnv(seed)
+        hits, _ = _replay_once(g, gi, phase, want, penv)
+        if hits:
+            det.update(found_by="fallback-probe", probe_values=dict(penv), failed=[(f[0], f[2]) for f in hits[:4]])
+            return dict(reproduced=True, detail=det)
+    det.update(failed=[(f[0], f[2]) for f in failed[:4]])
+    return dict(reproduced=False, detail=det)
